@@ -295,6 +295,9 @@ func unwrapPathErr(err error) error {
 }
 
 func (fs *FS) rename(oldname, newname string) error {
+	if !hackpadfs.ValidPath(oldname) || !hackpadfs.ValidPath(newname) {
+		return hackpadfs.ErrInvalid
+	}
 	oldFile, err := fs.getFile(oldname)
 	if err != nil {
 		if _, oldParentErr := fs.getFile(path.Dir(oldname)); errors.Is(err, hackpadfs.ErrNotExist) && oldParentErr == nil {
